@@ -217,6 +217,7 @@ func genC09(t *rapid.T) c09Case {
 	c.Tree = genTree(t, treeOpts{Vars: true, Ellipsis: withEllipsis, Suffix: true, NoDeep: true, VarPct: 45, MaxDepth: 4}, nm)
 	numberEllipses(c.Tree)
 	step := func() int { return rapid.IntRange(0, 3).Draw(t, "step") }
+	broughtKeys := 0
 	add := func(a Assign) {
 		c.Binds = append(c.Binds, a)
 		c.Steps = append(c.Steps, step())
@@ -238,7 +239,18 @@ func genC09(t *rapid.T) c09Case {
 				case 3:
 					add(Assign{Name: ch.Var, Kind: "item", Rename: nm.draw(t)})
 				case 4:
-					add(Assign{Name: ch.Var, Kind: "item", Node: genTree(t, treeOpts{Vars: true, NoDeep: true, MaxDepth: 2, MaxElems: 3, VarPct: 50}, nm)})
+					val := genTree(t, treeOpts{Vars: true, NoDeep: true, MaxDepth: 2, MaxElems: 3, VarPct: 50}, nm)
+					add(Assign{Name: ch.Var, Kind: "item", Node: val})
+					// the same map may also name variables that the inserted value brings along: substitution is
+					// simultaneous on the template, so the value "is inserted as is" and those keys hit nothing
+					if rapid.Bool().Draw(t, "keyForBroughtVariable") {
+						for _, inner := range singleFills(val) {
+							if rapid.Bool().Draw(t, "thisOne") {
+								add(inner)
+								broughtKeys++
+							}
+						}
+					}
 				}
 			}
 		case model.A:
@@ -297,6 +309,9 @@ func genC09(t *rapid.T) c09Case {
 	if rapid.IntRange(0, 3).Draw(t, "asMessage") == 3 {
 		h := genHdr(t, false)
 		c.Hdr = &h
+	}
+	if broughtKeys > 0 {
+		stats.labelOnly("key-names-variable-brought-by-inserted-value", 1)
 	}
 	return c
 }
